@@ -22,12 +22,19 @@ Definition Zmmd := @multi_mode_dot Z 0%Z Z.add Z.mul.
 Definition ZmmdT := @multi_mode_dot_T Z 0%Z Z.add Z.mul.
 Definition Zp2_dense := @p2_dense Z 0%Z Z.add Z.mul.
 
-(* history-recording instance of the skeleton: a factor is the list of sweeps that assigned it *)
-Definition trace_upd (it m : nat) (s : st (list nat) unit) : list nat := nth m (facs s) [] ++ [it].
+(* history-recording instance of the skeleton: a factor is the list of sweeps in which it was touched -- assigned by the
+   sweep, or rewritten by the orthogonalise hook (modes in `orthable`: min(shape) >= rank; iterations <= k for
+   orthogonalise = Some k) *)
+Definition trace_upd (it m : nat) (s : st (list nat) unit unit) : list nat * unit := (nth m (facs s) [] ++ [it], tt).
+Fixpoint mark_modes (it : nat) (orthable : list nat) (off : nat) (hs : list (list nat)) : list (list nat) :=
+  match hs with [] => [] | h :: r => (if memb off orthable then h ++ [it] else h) :: mark_modes it orthable (S off) r end.
 Definition trace_run (a : algo) (n : nat) (fixed : list nat) (budget : nat) (tol : bool) (stops : list bool)
-  : res (list (list nat)) :=
-  match run trace_upd (fun it _ => nth it stops false) (fun s => s) false a n fixed budget tol
-            (mkst tt (repeat [] n)) with
+    (ortho : option nat) (orthable : list nat) : res (list (list nat)) :=
+  match run trace_upd (fun it _ => nth it stops false) (fun s => s) false
+            (fun it s => mkst (wts s) (mark_modes it orthable 0 (facs s)) tt)
+            (fun it => match ortho with Some k => Nat.leb it k | None => false end)
+            (fun _ _ => tt) (fun _ => false) (fun _ _ _ => false) (fun _ _ l c => c) (fun _ _ l c => c) (fun _ _ _ => tt)
+            a n fixed budget tol (mkst tt (repeat [] n) tt) with
   | Ok s => Ok (facs s)
   | Err => Err
   end.
@@ -49,17 +56,27 @@ Definition p2_state_dense (J : nat) (x : list Z * list zmat * list zmat) : tenso
 Definition p2_state_eqb (x y : list Z * list zmat * list zmat) : bool :=
   let '(w, fs, P) := x in let '(w', fs', P') := y in z_list_eqb w w' && zmats_eqb fs fs' && zmats_eqb P P'.
 
-(* what byte comparison of successive budgets can establish: a factor that changed after sweep k WAS assigned in
-   sweep k (so every observed change must be predicted), and in the first sweep, which starts from a generic
-   non-stationary point, every assigned factor changes.  (Later sweeps may reproduce the same bits: with a single
-   free mode the least-squares update is idempotent.) *)
-Fixpoint trace_ok (model observed : list (list nat)) : bool :=
-  match model, observed with
-  | [], [] => true
-  | hm :: model', ho :: observed' =>
-      Bool.eqb (memb 0 hm) (memb 0 ho) && forallb (fun it => memb it hm) ho && trace_ok model' observed'
-  | _, _ => false
+(* comparing the model's history of a mode with the observed one (sweeps after which the implementation's factor
+   differed from before the sweep): every observed change must be predicted; the first sweep, which starts from a
+   generic non-stationary point, is compared exactly; a later predicted touch that was not observed is accepted only
+   when the harness found it uninformative (`excusable`: the inputs of that update were bitwise those of the previous
+   sweep, e.g. a single free mode whose least-squares update is idempotent) *)
+Fixpoint trace_ok (model observed excusable : list (list nat)) : bool :=
+  match model, observed, excusable with
+  | [], [], [] => true
+  | hm :: model', ho :: observed', ex :: excusable' =>
+      Bool.eqb (memb 0 hm) (memb 0 ho) && forallb (fun it => memb it hm) ho
+      && forallb (fun it => memb it ho || memb it ex) hm && trace_ok model' observed' excusable'
+  | _, _, _ => false
   end.
+Definition trace_res_ok (excusable : list (list nat)) (m o : res (list (list nat))) : bool :=
+  match m, o with Ok a, Ok b => trace_ok a b excusable | Err, Err => true | _, _ => false end.
+
+(* tucker(fixed_factors) with partial_tucker replaced by a recorded answer: the model's pt returns the tape iff it is
+   called with the arguments the implementation's partial_tucker saw *)
+Definition tape_pt (c1 : tensor Z) (modes : list nat) (free : list zmat) (tc : tensor Z) (tf : list zmat)
+    (c : tensor Z) (ms : list nat) (fr : list zmat) : tensor Z * list zmat :=
+  if zt_eqb c c1 && nat_list_eqb ms modes && zmats_eqb fr free then (tc, tf) else (mk [] [], []).
 
 Inductive case :=
 (* initialiser: rank, weights (None = no weights), factors | implementation: factors returned by the initialiser,
@@ -69,7 +86,12 @@ Inductive case :=
 | CDense (id : nat) (R : nat) (w : list Z) (fs : list zmat) (dense : tensor Z)
 (* skeleton: per mode, the sweeps after which the implementation's factor differed from the previous budget's *)
 | CTrace (id : nat) (a : algo) (n : nat) (fixed : list nat) (budget : nat) (tol : bool) (stops : list bool)
-         (observed : res (list (list nat)))
+         (ortho : option nat) (orthable : list nat) (observed : res (list (list nat))) (excusable : list (list nat))
+(* tucker(init=(core, fs), fixed_factors=fixed) around a recorded partial_tucker: arguments it received
+   (absorbed core, modes, free factors), the answer it gave (core, factors), what tucker returned *)
+| CTuckerTape (id : nat) (core : tensor Z) (fs : list zmat) (fixed : list nat)
+              (c1 : tensor Z) (modes : list nat) (free : list zmat) (tc : tensor Z) (tf : list zmat)
+              (out : res (tensor Z * list zmat))
 (* tucker fixed_factors: labels of the returned factor list (i = supplied factor i, n+j = j-th new factor) *)
 | CTuckerLists (id : nat) (n : nat) (fixed : list nat) (observed : res (list nat))
 (* tucker zero budget: returned core / factors *)
@@ -93,8 +115,11 @@ Definition agree (c : case) : bool :=
       zmats_eqb fs' out_fs && zt_eqb (Zcp_dense R w' fs') dense0
       && zt_eqb (Zcp_dense R (match w with None => Zones R | Some v => v end) fs) dense0
   | CDense _ R w fs dense => zt_eqb (Zcp_dense R w fs) dense
-  | CTrace _ a n fixed budget tol stops observed =>
-      res_eqb trace_ok (trace_run a n fixed budget tol stops) observed
+  | CTrace _ a n fixed budget tol stops ortho orthable observed excusable =>
+      trace_res_ok excusable (trace_run a n fixed budget tol stops ortho orthable) observed
+  | CTuckerTape _ core fs fixed c1 modes free tc tf out =>
+      res_eqb (fun x y => zt_eqb (fst x) (fst y) && zmats_eqb (snd x) (snd y))
+              (tucker_fixed 0%Z Z.add Z.mul core fs fixed (tape_pt c1 modes free tc tf)) out
   | CTuckerLists _ n fixed observed =>
       res_eqb nat_list_eqb
         (tucker_fixed_lists fixed (seq 0 n) (fun modes free => seq n (length free))) observed
@@ -114,7 +139,7 @@ Definition agree (c : case) : bool :=
 
 Definition ident (c : case) : nat :=
   match c with
-  | CInit i _ _ _ _ _ | CDense i _ _ _ _ | CTrace i _ _ _ _ _ _ _ | CTuckerLists i _ _ _
+  | CInit i _ _ _ _ _ | CDense i _ _ _ _ | CTrace i _ _ _ _ _ _ _ _ _ _ | CTuckerTape i _ _ _ _ _ _ _ _ _ | CTuckerLists i _ _ _
   | CTuckerZero i _ _ _ _ | CTuckerDense i _ _ _ | CP2Dense i _ _ _ _ _ _ _ _ | CNtdInit i _ _ _ _
   | CP2Init i _ _ _ _ _ _ _ _ => i
   end.
